@@ -3,7 +3,7 @@
 # confirms a seeded change produced by a sub-agent (demo passes on the pristine worktree, fails with the patch,
 # the pinned test-suite still passes) and runs the property's quick check against the patched worktree.
 ID=$1; X=$2; shift 2
-WT=/tmp/seed/$ID; SRC=${SEEDOUT:-/tmp/seed/out}/$ID/$X; LOG=$SRC/confirm.log
+WT=${SEEDWT:-/tmp/seed}/$ID; SRC=${SEEDOUT:-/tmp/seed/out}/$ID/$X; LOG=$SRC/confirm.log
 cd $WT || exit 9
 git -C $WT checkout -q -- . ; git -C $WT clean -fdq
 {
